@@ -324,7 +324,32 @@ PLANS['C14'] = dict(
         G('starve', 'c-plain', 'A', 8, 12, thorough=300),
         G('starve', 'cpp-plain', 'B', 2, 100, thorough=2000, strategy='rw'),
     ],
-    floor=lambda c: None if c['counters'].get('acquisitions_that_needed_31_or_more_sleeps', 0) > 0 else 'the adversary never drove a victim to the long-wait threshold',
+    floor=lambda c: None if c['counters'].get('long_wait_bit_set', 0) > 0 else 'the adversary never drove a victim to the long-wait threshold',
+)
+
+
+def cv_owners(w, home):
+    o = w.get('oracle', '')
+    if o in ('asan', 'tsan', 'ubsan'):
+        return sanitizer_owners(w, home)
+    if o in ('lost-wakeup', 'swallowed-signal', 'reader-rule'):
+        return {'C04'}
+    if o == 'leftover-registration':
+        return {'C11', 'C04'}
+    if o == 'waitn-result':
+        return {'C11', 'C04'}
+    return mu_mix_owners(w, home)
+
+
+PLANS['C04'] = dict(
+    rule=RULE_B + RULE_A + 'non-trivial = at least one wait of the execution slept (a waiter was really on the queue when the wake-up was issued).',
+    groups=[
+        G('cv_tokens', 'c-plain', 'B', 10, 3000, owners=cv_owners),
+        G('cv_tokens', 'c-plain', 'A', 4, 600, thorough=20000, owners=cv_owners),
+        G('mu_mix', 'c-plain', 'B', 2, 2000, **MU),
+        G('cv_tokens', 'c-asan', 'B', 2, 1500, owners=cv_owners),
+        G('cv_tokens', 'c-binsem-plain', 'A', 2, 300, thorough=10000, owners=cv_owners, params=dict(binsem=1), tier='thorough'),
+    ],
 )
 
 
